@@ -320,6 +320,9 @@ public:
             throw nix::InvalidDimension("The ticks of a range dimension must not be empty!",
                                         "DataArray::appendRangeDimension");
         }
+        if (!std::is_sorted(ticks.begin(), ticks.end())) {
+            throw UnsortedTicks("DataArray::appendRangeDimension");
+        }
         RangeDimension dim = backend()->createRangeDimension(backend()->dimensionCount() + 1, ticks);
         if (label.size() > 0)
             dim.label(label);
